@@ -78,12 +78,12 @@ DEEP = {
  "C07": "prefix histories fed up to 30 times over, ramps of up to 1000 ever slower samples, healthy runs continued through probes",
  "C08": "climbing histories judged after every prefix",
  "C09": "windows of up to 131072 samples, unbounded maximum window, completions on the boundary instant, folds judged behind a traced limit as well",
- "C10": "up to 2100 callers that blocked and gave up before the scenario",
+ "C10": "up to 2100 callers that blocked and gave up before the scenario; hand-offs over partitioned strategies judged for liveness against the admission rule",
  "C11": "up to 300 hand-offs over a standing backlog, wait-for-ever timeouts",
- "C12": "limits that grow or are cut under queued callers",
+ "C12": "limits that grow or are cut under queued callers, callers with a context deadline of their own",
  "C13": "up to 1500 abandoned waits before the caller arrives, releases without usable capacity",
  "C14": "call lists gone through up to 400 times on one interceptor, refusal / grant storms",
- "C15": "the default probe interval judged observationally over thousands of samples, second-scale RTTs 1 ns apart",
+ "C15": "the default probe interval judged observationally over thousands of samples and against a sanity bound of 2 x 50000 samples, second-scale RTTs 1 ns apart, caller-supplied minimum baselines",
  "C18": "windows of up to 90000 folded samples on top of constructor-built windows of up to 2^20",
  "C20": "hundreds of samples per backend metric, restart storms of up to 200 Stop/Start pairs",
 }
